@@ -38,6 +38,8 @@ func (u *Unit) syncCall(st *State, call *ast.CallExpr, fn *types.Func, sel *ast.
 			if u.checks["lock"] {
 				u.oblige(st, "lock@"+name, "lock", nil, Eq(cur, IntLit(0)), call.Pos(), "mutex not already held by this goroutine")
 			}
+			// a goroutine that locks a mutex it already holds never gets here
+			st.assume(Eq(cur, IntLit(0)))
 			u.store(st, lv, scalar(lv.T, IntLit(mode)))
 			u.acquireGuard(st, sel, lv, call.Pos())
 		case "Unlock", "RUnlock":
